@@ -14,6 +14,7 @@
      model/access/default/no_access_model.rs                                                    -> AMNone   (combined_model.rs is not modelled)
      algorithm/search/edge_traversal.rs         EdgeTraversal::{forward_traversal, reverse_traversal, total_cost}
      algorithm/search/a_star/bidirectional_ops.rs   reorient_reverse_route
+     algorithm/search/search_algorithm.rs       run_edge_oriented: the composition with the zero-cost end edges -> compose_edge_oriented
      routee-compass/src/plugin/output/default/traversal/plugin.rs   construct_route_output: traversal_summary = serialize_state(last state)
 
    The cost model is a parameter (record [cost_fns]: CostModel::access_cost and CostModel::edge_cost); Model/TraversalRun.v
@@ -287,6 +288,18 @@ Section Model.
       | Some l => (Some (et_edge l), et_state l)
       end in
     run_forward inst final_edge acc_state (rev (map et_edge rev_route)).
+
+  (* search_algorithm::run_edge_oriented, general case (source and target edge neither equal nor adjacent): the
+     vertex-oriented route found between them is framed by the source edge (zero cost, the declared initial state) and
+     the target edge (zero cost, the state THAT route arrived in); an empty route is an InternalError *)
+  Definition compose_edge_oriented (inst : instance N) (source target : nat) (inner : list (etrav N))
+    : res (list (etrav N)) :=
+    match last (map Some inner) None with
+    | None => Err "InternalError"
+    | Some l =>
+        Ok (Build_etrav source zero zero (initial_state (i_sm inst))
+            :: inner ++ [Build_etrav target zero zero (et_state l)])
+    end.
 
   (* construct_route_output: traversal_summary = state_model.serialize_state(last_edge.result_state) *)
   Definition traversal_summary (inst : instance N) (route : list (etrav N)) : res (list (string * N)) :=
